@@ -251,12 +251,15 @@ func (c *Cron) PendingCount() int {
 func (c *Cron) command(ctx *core.Context, command string) error {
 	core.Log(core.INFO|CRON, ctx, "Cron.command", "command", command, "name", c.Name)
 	c.Lock()
-	if c.control == nil {
-		c.Unlock()
+	control := c.control
+	c.Unlock()
+	if control == nil {
 		return fmt.Errorf("Not started")
 	}
-	c.control <- command
-	c.Unlock()
+	// Not while we have the lock: the loop takes the lock when it
+	// comes back from a pause, and if the channel is full by then,
+	// we would wait for the loop, and the loop for us.
+	control <- command
 	return nil
 }
 
@@ -306,6 +309,10 @@ func (c *Cron) start(ctx *core.Context) error {
 	if suspendedByBroadcast {
 		suspendedLocally = true
 		c.stopTimerLocked()
+	} else {
+		// A loop that is started again (after a 'kill') finds
+		// the timer stopped, and jobs can be pending.
+		c.resetTimerLocked()
 	}
 LOOP:
 	for {
@@ -502,6 +509,26 @@ func (c *Cron) schedule(ctx *core.Context, job *CronJob, checkLimit bool) error 
 		}
 	}
 
+	if checkLimit {
+		// Before we remove anything: a replacement that is
+		// refused leaves the job it was to replace.
+		count := len(c.Timeline)
+		for _, pending := range c.Timeline {
+			if pending.Id == job.Id {
+				// A replacement does not add to the count.
+				count--
+				break
+			}
+		}
+		limit := c.Limit
+		if limit <= count {
+			err := fmt.Errorf("Cron %p %s capacity limit (%d) hit", c, c.Name, limit)
+			core.Log(core.WARN|CRON, ctx, "Cron.schedule", "limit", limit, "error", err, "name", c.Name)
+			c.Unlock()
+			return err
+		}
+	}
+
 	//remove existing job with the same id
 	if _, err := c.rem(ctx, job.Id); nil != err {
 		c.Unlock()
@@ -509,21 +536,10 @@ func (c *Cron) schedule(ctx *core.Context, job *CronJob, checkLimit bool) error 
 		return err
 	}
 
-	var err error
-	if checkLimit {
-		count := len(c.Timeline)
-		limit := c.Limit
-		if limit <= count {
-			err = fmt.Errorf("Cron %p %s capacity limit (%d) hit", c, c.Name, limit)
-			core.Log(core.WARN|CRON, ctx, "Cron.schedule", "limit", limit, "error", err, "name", c.Name)
-		}
-	}
-	if err == nil {
-		c.insert(ctx, job)
-	}
+	c.insert(ctx, job)
 
 	c.Unlock()
-	return err
+	return nil
 }
 
 // ParseCronExpr is cronexpr.Parse, except that an expression that
